@@ -81,6 +81,8 @@ def gen_entry(rng):
         addr = (rng.choice([10, 127, 192, 172, 198]) << 24) | rng.getrandbits(24)
     if fam == 6 and rng.random() < 0.3:
         addr = (0x20010DB8 << 96) | rng.getrandbits(96)
+    elif fam == 6 and rng.random() < 0.2:
+        addr = (0xFE80 << 112) | rng.getrandbits(16)  # link-local, the peers that come with a zone
     mask = ((1 << bits) - 1) ^ ((1 << (bits - plen)) - 1)
     fmt = v4 if fam == 4 else v6
     r = rng.random()
@@ -107,6 +109,13 @@ def peers_for(rng, entries):
                 out.append((fmt(val), pos))
         if fam == 4:
             out.append((f"::ffff:{v4(net)}", "v4-mapped"))
+        else:
+            # what getpeername() reports for a link-local peer: the address with a %zone suffix; and the
+            # same address spelled in full
+            for pos, val in (("net", net), ("bcast", net + size - 1), ("bcast+1", net + size)):
+                if 0 <= val <= top:
+                    out.append((fmt(val) + rng.choice(["%eth0", "%1", "%wlan0"]), "scoped6:" + pos))
+            out.append((":".join(f"{(net >> (112 - 16 * i)) & 0xFFFF:04X}" for i in range(8)), "expanded6"))
     for _ in range(6):
         out.append((v4(rng.getrandbits(32)), "random4"))
         out.append((v6(rng.getrandbits(128)), "random6"))
